@@ -9,6 +9,9 @@ IFS, IPS = b"\x1f", b"\x1e"
 SEPARGS = ["--ifs", "\x1f", "--ips", "\x1e", "--ofs", "\x1f", "--ops", "\x1e"]
 NAMES = [b"a", b"b", b"c", b"x", b"y", b"id", b"k", b"L_a", b"R_a", b"j", b"j2", b"lj", b"rj", b"\xc3\xa9", b"a.b"]
 KEYVALS = [b"", b"1", b"2", b"3", b"10", b"a", b"b", b"A", b"ab", b"1", b"2", b"x,y", b" ", b"01", b"a!"]
+# join values holding the joiner of the bucket key at an edge, doubled or alone: non-empty values that any test made on the
+# comma-joined key text (instead of on the values) confuses with empty ones
+EDGEVALS = [b"x,", b",y", b"a,,b", b",", b"x", b"y", b"", b",,"]
 VALS = [b"", b"1", b"2", b"p", b"q", b"r", b"0x10", b"1e3", b"x y", b"\xc3\xa9", b"l", b"w"]
 
 
@@ -40,6 +43,11 @@ def gen_case(rng, tier):
     oj = rng.sample([b"j", b"j2", b"id", b"k"], n)
     lj = list(oj) if rng.random() < 0.6 else rng.sample([b"lj", b"a", b"id", b"j"], n)
     rj = list(oj) if rng.random() < 0.6 else rng.sample([b"rj", b"b", b"k", b"j"], n)
+    # input names that are the output names in another order / overlapping them (-j a,b -l b,a; -j a,b -r b,c): the renaming
+    # of join fields must be simultaneous, not one field after the other
+    if n == 2 and rng.random() < 0.25:
+        lj = rng.choice([oj[::-1], [oj[1], b"lj"], [b"lj", oj[0]], list(oj)])
+        rj = rng.choice([oj[::-1], [oj[1], b"rj"], [b"rj", oj[0]], list(oj)])
     lp = rng.choice([b"", b"", b"", b"L_"])
     rp = rng.choice([b"", b"", b"", b"R_"])
     lk = None
@@ -52,6 +60,9 @@ def gen_case(rng, tier):
     ie = rng.random() < 0.35
     sorted_mode = rng.random() < 0.4
     kv = rng.sample(KEYVALS, rng.randint(2, 5))
+    if rng.random() < 0.15:
+        kv = rng.sample(EDGEVALS, rng.randint(3, 6))
+        ie = ie or rng.random() < 0.6
 
     def side(jn, m, homog):
         other = rng.sample(NAMES, rng.randint(0, 3))
@@ -366,7 +377,7 @@ def run(ctx):
     ctx.assumptions = ["the left-file reader goroutine/channel and --prepipe are not modelled (the left file is a list of records)",
                        "the heterogeneity of contexts (NR, FILENAME) on emitted records is not observed"]
     forbidden_gate(ctx, ["Base", "C13"])
-    ok, why = check_props(ctx, "C13/Props.v", ["C13/Harness.vo", "C13/Proofs.vo", "C13/ProofsSorted.vo", "C13/ProofsMerge.vo"])
+    ok, why = check_props(ctx, "C13/Props.v", ["C13/Harness.vo", "C13/Proofs.vo", "C13/ProofsSorted.vo", "C13/ProofsMerge.vo", "C13/ProofsOrder.vo"])
     rng = ctx.rng
     n = 420 if ctx.tier == "quick" else 5000
     cases = [gen_case(rng, ctx.tier) for _ in range(n)]
